@@ -115,6 +115,16 @@ def annual_trend(x, years):
     return r.slope * (years - uy.mean()), True, float(r.slope)
 
 
+def annual_slope(x, years):
+    """regression slope of the annual means (selected by year, independent of the storage order)"""
+    import scipy.stats
+
+    uy = np.unique(years)
+    if uy.size < 2:
+        return 0.0
+    return float(scipy.stats.linregress(uy, np.array([x[years == y].mean() for y in uy])).slope)
+
+
 # ------------------------------------------------------------------ the oracle
 def oracle(rng, n_cases, res, problems):
     cfs = oracle_configs()
@@ -249,7 +259,28 @@ def isimip_trend_oracle(rng, n_cases, res, problems):
             f = f + rate * np.arange(dF.size) / 365.0
             h = h + rng.choice([0.0, 0.4]) * np.arange(dH.size) / 365.0
         kw = dict(nonparametric_qm=rng.random() < 0.3, detrending=rng.random() < 0.9, running_window_mode=False)
+        # storage order of the (explicitly dated) series: nothing in ibicus requires a chronological time axis -- windows are
+        # selected by day of year / month, the trend by calendar year (the model's yearlyMeans selects by year, not by position)
+        order_kind = rng.choice(["chronological", "blocks-swapped", "descending", "shuffled"])
+        f_chron, dF_chron = f, dF
+
+        def reorder(n, what):
+            if what == "blocks-swapped":
+                cut = rng.randint(n // 4, 3 * n // 4)
+                return np.concatenate([np.arange(cut, n), np.arange(0, cut)])
+            if what == "descending":
+                return np.arange(n)[::-1].copy()
+            idx = np.arange(n)
+            nprs.shuffle(idx)
+            return idx
+
+        perm = np.arange(f.size) if order_kind == "chronological" else reorder(f.size, order_kind)
+        f, dF = f[perm], dF[perm]
+        if order_kind != "chronological" and k % 2 == 0:  # the historical series as well, in another order
+            po, ph = reorder(o.size, rng.choice(["descending", "shuffled"])), reorder(h.size, rng.choice(["blocks-swapped", "shuffled"]))
+            o, dO, h, dH = o[po], dO[po], h[ph], dH[ph]
         case = {"config": "ISIMIP/additive", "what": "isimip-trend", "kw": kw, "trend": kind, "rate_per_year": rate if kind == "trend" else 0.0,
+                "storage_order": order_kind,
                 "years_F": ny, "sizes": [int(o.size), int(h.size), int(f.size)], "case": k, "seed": C.seed(), "startF": str(dF[0])}
         yO, yH, yF = (year(d) for d in (dO, dH, dF))
         scale = float(max(np.abs(o).max(), np.abs(h).max(), np.abs(f).max()))
@@ -278,10 +309,27 @@ def isimip_trend_oracle(rng, n_cases, res, problems):
             samples.insert(0, {**case, "significant": sig, "slope_per_year": slope})
         dev = float(np.max(np.abs(outw - seen["r"] - tr)))
         if not dev <= 1e-8 * (1 + scale):
-            problems.append((f"ISIMIP: output - (quantile-mapped detrended series) differs from the trend removed from cm_future, slope*(year - mean year) "
-                             f"with slope {slope:.4g}/yr (significant={sig}, detrending={bool(deb.detrending)}), by {dev:.3g}",
-                             {**case, "what": "isimip-trend-restored"}))
+            retained = annual_slope(outw, yF) - annual_slope(seen["r"], yF)
+            problems.append((f"ISIMIP ({order_kind} time axis): output - (quantile-mapped detrended series) differs from the trend removed from cm_future, "
+                             f"slope*(year - mean year) with slope {slope:.4g}/yr (significant={sig}, detrending={bool(deb.detrending)}), by {dev:.3g}; "
+                             f"retained slope of the annual means {retained:.4g}/yr", {**case, "what": "isimip-trend-restored"}))
             continue
+        if order_kind != "chronological":
+            # the same dated values in chronological storage order give the same debiased value for every date (month mode)
+            with warnings.catch_warnings(), np.errstate(all="ignore"):
+                warnings.simplefilter("ignore")
+                a_perm = ISIMIP.from_variable("tas", **kw).apply_location(o, h, f, dO, dH, dF)
+                a_chr = ISIMIP.from_variable("tas", **kw).apply_location(o, h, f_chron, dO, dH, dF_chron)
+            devp = float(np.max(np.abs(a_perm - a_chr[perm])))
+            res.count(("isimip-order", order_kind, kind, bool(deb.detrending), ny), True)
+            if len([x for x in samples if x.get("storage_order", "chronological") != "chronological"]) < 1:
+                samples.insert(0, {**case, "max_dev_vs_chronological": devp})
+            if not devp <= 1e-8 * (1 + scale):
+                s_in, s_out = annual_slope(f, yF), annual_slope(a_perm, yF)
+                problems.append((f"ISIMIP (month mode): cm_future stored in {order_kind} order with its explicit dates gives, per date, values differing from "
+                                 f"the chronological call by up to {devp:.3g}; slope of annual means cm_future {s_in:.4g}/yr -> debiased {s_out:.4g}/yr "
+                                 f"(chronological: {annual_slope(a_chr, year(dF_chron)):.4g}/yr)", {**case, "what": "isimip-storage-order"}))
+                continue
         if k % 3 == 0 and deb.detrending:
             b = rng.choice([-1, 1]) * rng.choice([0.5, 2.0])
             uy = np.unique(yF)
